@@ -7,7 +7,11 @@
 (*          address is client c's: the request as the handler saw it on entry  *)
 (*          (req1) and again after `later' more packets had been received      *)
 (*          (req2), same = the two Pack() results are equal                    *)
-(*   crecv  client c got a reply for (c, round): id, question name, token      *)
+(*   crecv  client c got a reply for (c, round): id, question name, token; on   *)
+(*          transport "udpmulti" (a server on a wildcard socket, clients that   *)
+(*          talk to different local addresses of it from unconnected sockets)  *)
+(*          also src = which server address the reply came FROM, to be compared *)
+(*          with dst of the send event                                          *)
 (*   lost   an exchange attempt ended without reply (real UDP only); not an    *)
 (*          error                                                              *)
 (* The events are written under one lock, a handler's event before it writes   *)
@@ -79,7 +83,7 @@ Holding(s, b) == { t \in 1..Len(s.tasks) : s.tasks[t].stage = "recv" /\ s.tasks[
 MinOf(S) == CHOOSE t \in S : \A u \in S : t <= u
 FieldsOfInst(i) == FieldsOf(ClientOf(i), RoundOf(i))
 
-Pooled(e) == e.tr \in {"udp", "pc"}
+Pooled(e) == e.tr \in {"udp", "udpmulti", "pc"}
 
 Init == l = 1 /\ x = XInit /\ cur = [c \in CIds |-> -1] /\ sentAt = [i \in TraceClients |-> 0] /\ out = {} /\ HWInit /\ TLCSet(3, <<>>)
 
@@ -129,7 +133,7 @@ Next ==
             /\ UNCHANGED out
             /\ IF Ev.req # FieldsOf(Ev.c, Ev.round) \/ Len(Ev.wire) # ReqBase + PadLen(Ev.c, Ev.round) \/ Len(Ev.wire) > Cap
                  THEN MarkBadC(l, "recorder-send-fields") /\ UNCHANGED x
-               ELSE IF Ev.try = 0 /\ CanSend(x, i) THEN x' = Send(x, i, Len(Ev.wire))
+               ELSE IF Ev.try = 0 /\ CanSend(x, i) THEN x' = Send(x, i, Len(Ev.wire), Ev.dst)
                ELSE IF Ev.try > 0 /\ CanResend(x, i) THEN x' = Resend(x, i)
                ELSE MarkBadC(l, "recorder-send-order") /\ UNCHANGED x
        [] Ev.ev = "get" ->        \* pool.get hook: the buffer leaves the pool
@@ -157,11 +161,12 @@ Next ==
        [] Ev.ev = "crecv" ->
             /\ UNCHANGED <<cur, sentAt, out>>
             /\ LET i == Inst(Ev.c, Ev.round)
-                   rep == [to |-> i, body |-> ReplyFor(Whole(x, i))] IN
+                   rep == [to |-> i, body |-> ReplyFor(Whole(x, i)), src |-> x.via[i]] IN
                IF i \notin TraceClients \/ ~CanClientRecv(x, i, rep) THEN MarkBadC(l, "reply-without-handler") /\ UNCHANGED x
                ELSE
                  /\ x' = ClientRecv(x, i, rep)
-                 /\ IF Ev.req.id # IdOf(Ev.c, Ev.round) THEN MarkBadC(l, "client-got-foreign-reply:id")
+                 /\ IF Ev.tr = "udpmulti" /\ Ev.src # x.via[i] THEN MarkBadC(l, "reply-from-wrong-local-address")
+                    ELSE IF Ev.req.id # IdOf(Ev.c, Ev.round) THEN MarkBadC(l, "client-got-foreign-reply:id")
                     ELSE IF Ev.req.qname # NameOf(Ev.c, Ev.round) THEN MarkBadC(l, "client-got-foreign-reply:qname")
                     ELSE IF Ev.req.tok # ReplyTokOf(First4(TokOf(Ev.c, Ev.round))) THEN MarkBadC(l, "client-got-foreign-reply:token")
                     ELSE TRUE
